@@ -19,6 +19,12 @@ pub struct CmdFate {
     pub kind: u8, // 0 start 1 drop 2 commit 3 submit
     pub force: bool,
     pub collect: u64,
+    /// every collect id of the command (a submitted span set can go to several traces)
+    pub collects: Vec<u64>,
+    /// collector cycle (index into Analysis.cycles) that consumed the command
+    pub cycle: Option<usize>,
+    /// log index of the P_RECV event that consumed it
+    pub consumed_at: Option<usize>,
     /// Entered the ring at this log index / Lost / Parked (and maybe entered later) / TlsGone
     pub entered: Option<usize>,
     pub lost: bool,
@@ -34,6 +40,15 @@ pub struct Delivered {
     pub exp: Option<usize>,
 }
 
+#[derive(Clone, Debug)]
+pub struct CycleInfo {
+    pub begin_step: u32,
+    pub end_step: u32,
+    pub tid: usize,
+    /// ring owner tid -> step at which its drain ended in this cycle
+    pub drain_end: HashMap<usize, u32>,
+}
+
 pub struct Analysis<'a> {
     pub case: &'a Case,
     pub model: &'a Model,
@@ -42,6 +57,7 @@ pub struct Analysis<'a> {
     /// for each log index: outer op being executed by that thread (usize::MAX = none)
     pub ev_op: Vec<usize>,
     pub cmds: Vec<CmdFate>,
+    pub cycles: Vec<CycleInfo>,
     /// outer ops during which a submit command was lost
     pub lost_submit_ops: HashSet<usize>,
     /// collect ids (runtime) whose StartCollect was lost
@@ -123,11 +139,18 @@ impl<'a> Analysis<'a> {
                     kind,
                     force,
                     collect: e.b,
+                    collects: vec![e.b],
+                    cycle: None,
+                    consumed_at: None,
                     entered: None,
                     lost: false,
                     parked: false,
                 });
                 open.insert(e.tid, cmds.len() - 1);
+            } else if e.kind == fv::P_SUBMIT_ITEM {
+                if let Some(&ci) = open.get(&e.tid) {
+                    cmds[ci].collects.push(e.b);
+                }
             } else if e.kind == fv::P_PUSH_OUTCOME {
                 let full = e.b == 1;
                 if full {
@@ -187,6 +210,105 @@ impl<'a> Analysis<'a> {
         for (_, ci) in open {
             finish_cmd(&mut cmds[ci]);
         }
+        // collector cycles and which cycle consumed which command
+        let mut cycles: Vec<CycleInfo> = vec![];
+        {
+            let mut cur: Option<CycleInfo> = None;
+            let mut ring: Option<u64> = None;
+            for e in log.iter() {
+                match e.kind {
+                    k if k == fv::P_CYCLE_BEGIN => {
+                        cur = Some(CycleInfo {
+                            begin_step: e.step,
+                            end_step: u32::MAX,
+                            tid: e.tid as usize,
+                            drain_end: HashMap::new(),
+                        });
+                        ring = None;
+                    }
+                    k if k == fv::P_DRAIN_RX => ring = Some(e.a),
+                    k if k == fv::P_RECV_EMPTY => {
+                        if let (Some(c), Some(r)) = (cur.as_mut(), ring) {
+                            if c.tid == e.tid as usize {
+                                c.drain_end.insert(r as usize, e.step);
+                            }
+                        }
+                    }
+                    k if k == fv::P_CYCLE_END => {
+                        if let Some(mut c) = cur.take() {
+                            c.end_step = e.step;
+                            cycles.push(c);
+                        }
+                    }
+                    _ => {}
+                }
+            }
+            if let Some(c) = cur.take() {
+                cycles.push(c);
+            }
+        }
+        // ground truth of consumption: P_RECV events, grouped per drained ring
+        // consumed[ring owner] = [(kind, collect ids, cycle index, log index)]
+        let mut consumed: HashMap<usize, Vec<(u8, Vec<u64>, usize, usize)>> = HashMap::new();
+        {
+            let mut cyc: Option<usize> = None;
+            let mut ncyc = 0usize;
+            let mut ring: Option<usize> = None;
+            for (i, e) in log.iter().enumerate() {
+                match e.kind {
+                    k if k == fv::P_CYCLE_BEGIN => {
+                        cyc = Some(ncyc);
+                        ring = None;
+                    }
+                    k if k == fv::P_CYCLE_END => {
+                        cyc = None;
+                        ncyc += 1;
+                    }
+                    k if k == fv::P_DRAIN_RX => ring = Some(e.a as usize),
+                    k if k == fv::P_RECV => {
+                        if let (Some(c), Some(r)) = (cyc, ring) {
+                            let kind = (e.a & 0xff) as u8;
+                            let item = e.a >> 8;
+                            let list = consumed.entry(r).or_default();
+                            if kind == 3 && item > 0 {
+                                if let Some(last) = list.last_mut() {
+                                    last.1.push(e.b);
+                                }
+                            } else {
+                                list.push((kind, vec![e.b], c, i));
+                            }
+                        }
+                    }
+                    _ => {}
+                }
+            }
+        }
+        // match issued commands with consumed ones, per ring: sent commands (start, submit) that
+        // entered the ring keep their order; forced ones (commit, drop) are matched by content
+        {
+            let mut used: HashMap<usize, Vec<bool>> = HashMap::new();
+            for (r, l) in consumed.iter() {
+                used.insert(*r, vec![false; l.len()]);
+            }
+            let order: Vec<usize> = (0..cmds.len()).collect();
+            for ci in order {
+                let c = &cmds[ci];
+                if c.lost && !c.force {
+                    continue;
+                }
+                let list = match consumed.get(&c.tid) {
+                    Some(l) => l,
+                    None => continue,
+                };
+                let u = used.get_mut(&c.tid).unwrap();
+                let pos = (0..list.len()).find(|&k| !u[k] && list[k].0 == c.kind && list[k].1 == c.collects);
+                if let Some(k) = pos {
+                    u[k] = true;
+                    cmds[ci].cycle = Some(list[k].2);
+                    cmds[ci].consumed_at = Some(list[k].3);
+                }
+            }
+        }
         let mut lost_submit_ops = HashSet::new();
         let mut lost_starts = HashSet::new();
         for c in &cmds {
@@ -223,6 +345,7 @@ impl<'a> Analysis<'a> {
             hb,
             ev_op,
             cmds,
+            cycles,
             lost_submit_ops,
             lost_starts,
             collect_ids,
@@ -339,6 +462,57 @@ impl<'a> Analysis<'a> {
             .filter(|(_, x)| x.trace_id == r.trace_id && x.node == r.node && x.parent == r.parent)
             .map(|(j, _)| j)
             .collect()
+    }
+
+    /// consumption cycle of the k-th kind command of runtime collect id
+    pub fn cmd_cycles(&self, kind: u8, id: u64) -> Vec<Option<usize>> {
+        self.cmds
+            .iter()
+            .filter(|c| c.kind == kind && c.collects.contains(&id) && !c.lost)
+            .map(|c| c.cycle)
+            .collect()
+    }
+
+    /// Non-atomic cut (finding D2): for model collect `c`, is there a pair of commands x
+    /// happens-before y such that the collector consumed y in an earlier cycle than x?
+    /// Pairs considered: start -> anything, submit/drop -> commit (of ops ordered by HB).
+    pub fn cut_inverted(&self, c: usize) -> bool {
+        let id = match self.collect_ids.get(&c) {
+            Some(id) => *id,
+            None => return false,
+        };
+        let rel: Vec<&CmdFate> = self.cmds.iter().filter(|x| x.collects.contains(&id) && !x.lost).collect();
+        for x in &rel {
+            for y in &rel {
+                if std::ptr::eq(*x, *y) {
+                    continue;
+                }
+                let ordered = match (x.op, y.op) {
+                    (Some(ox), Some(oy)) => {
+                        if ox == oy {
+                            x.log_idx < y.log_idx
+                        } else {
+                            self.hb.before(ox, oy)
+                        }
+                    }
+                    _ => false,
+                };
+                if !ordered {
+                    continue;
+                }
+                // only orders the collector semantics depend on
+                let matters = x.kind == 0 || y.kind == 2 || (x.kind == 1 && y.kind == 3) || (x.kind == 1 && y.kind == 2);
+                if !matters {
+                    continue;
+                }
+                match (x.cycle, y.cycle) {
+                    (Some(cx), Some(cy)) if cx > cy => return true,
+                    (None, Some(_)) if !x.lost => return true, // x never consumed, y was
+                    _ => {}
+                }
+            }
+        }
+        false
     }
 
     pub fn op_executed(&self, o: usize) -> bool {
